@@ -13,7 +13,7 @@ mod c09 {
     fn empty_string(_a: std::fmt::Arguments<'_>) -> String { String::new() }
 
     #[kani::proof]
-    #[kani::unwind(12)]
+    #[kani::unwind(40)]
     #[kani::stub(std::rt::thread_cleanup, noop)]
     #[kani::stub(alloc::fmt::format, empty_string)]
     fn c09_twin_query_parameters() {
